@@ -205,9 +205,38 @@ func (r *Run) flush() {
 		case "evict":
 			r.Lines = append(r.Lines, "EVICT\t"+AbsRID(e.Subj))
 		case "http":
-			r.Lines = append(r.Lines, "HTTP\t"+e.C+"\t"+fmt.Sprintf("%x", e.Subj))
+			// HTTP <label> <method> <hex url>
+			mu := strings.SplitN(e.Subj, " ", 2)
+			if len(mu) == 2 {
+				r.Lines = append(r.Lines, "HTTP\t"+e.C+"\t"+mu[0]+"\t"+fmt.Sprintf("%x", mu[1]))
+			}
 		case "httpresp":
-			r.Lines = append(r.Lines, "HTTPRESP\t"+e.C+"\t"+strconv.Itoa(e.N)+"\t"+fmt.Sprintf("%x", e.Subj)+"\t"+fmt.Sprintf("%x", r.W.Anon(e.Text)))
+			// HTTPRESP <label> <status> <kind: empty | error:<code> | data> <location rid or -> <hex headers>
+			kind := "data"
+			body := strings.TrimSpace(e.Text)
+			var eo struct {
+				Code    *string `json:"code"`
+				Message *string `json:"message"`
+			}
+			switch {
+			case body == "":
+				kind = "empty"
+			case json.Unmarshal([]byte(body), &eo) == nil && eo.Code != nil && eo.Message != nil:
+				kind = "error:" + *eo.Code
+			}
+			loc := "-"
+			for _, h := range strings.Split(e.Subj, ";") {
+				if strings.HasPrefix(h, "Location=") {
+					pth := strings.TrimPrefix(h, "Location=")
+					if strings.HasPrefix(pth, "/api/") {
+						loc = AbsRID(strings.ReplaceAll(strings.SplitN(pth[5:], "?", 2)[0], "/", "."))
+					} else {
+						loc = "x" + fmt.Sprintf("%x", pth)
+					}
+				}
+			}
+			r.Lines = append(r.Lines, "HTTPRESP\t"+e.C+"\t"+strconv.Itoa(e.N)+"\t"+kind+"\t"+loc+"\t"+fmt.Sprintf("%x", e.Subj))
+			r.Lines = append(r.Lines, "RAWOUT\t"+e.C+"\t"+fmt.Sprintf("%x", r.W.Anon(e.Text)))
 		case "qvariants":
 			var vs []string
 			for _, v := range strings.Fields(e.Text) {
